@@ -392,7 +392,15 @@ struct TypeConverter<'a> {
     cache: HashMap<wasm::AnyTypeId, Entity>,
     resource_map: HashMap<wasm::ResourceId, ResourceId>,
     owners: HashMap<wasm::ComponentAnyTypeId, (Owner, String)>,
+    /// The current nesting depth of defined types being converted.
+    depth: usize,
 }
+
+/// The maximum nesting depth of defined value types in a package.
+///
+/// Conversion (and every later pass over the types) is recursive; a deeper
+/// chain of type references would overflow the stack.
+const MAX_TYPE_NESTING_DEPTH: usize = 1000;
 
 impl<'a> TypeConverter<'a> {
     fn new(types: &'a mut Types, wasm_types: wasmparser::types::Types) -> Self {
@@ -402,6 +410,7 @@ impl<'a> TypeConverter<'a> {
             cache: Default::default(),
             resource_map: Default::default(),
             owners: Default::default(),
+            depth: 0,
         }
     }
 
@@ -669,6 +678,11 @@ impl<'a> TypeConverter<'a> {
             }
         }
 
+        if self.depth >= MAX_TYPE_NESTING_DEPTH {
+            bail!("type nesting exceeds the maximum supported depth of {MAX_TYPE_NESTING_DEPTH}");
+        }
+
+        self.depth += 1;
         let wasm_types = self.wasm_types.clone();
         let ty = match &wasm_types[id] {
             wasm::ComponentDefinedType::Primitive(ty) => ValueType::Defined(
@@ -772,6 +786,7 @@ impl<'a> TypeConverter<'a> {
             }
         };
 
+        self.depth -= 1;
         self.cache.insert(key, Entity::Type(Type::Value(ty)));
         Ok(ty)
     }
